@@ -378,7 +378,15 @@ def _run_layer(ctx, case, st):
     miv = -1.0 if missing != "no" else None
     mov = 0.25 if missing == "fixed" else None
     out_size = nk - cmin - cmax - cyc + (missing == "derived")
+    # documented forms of the per-example keypoint parameters: per unit (B, units, P), or shared by all units as
+    # (B, 1, P) / (B, P)
+    kin_form = str(rng.choice(["per_unit", "per_unit", "shared_3d", "shared_2d"]))
     kin = rng.normal(size=(B, units, nk - 2)).astype(np.float32)
+    if kin_form == "shared_3d":
+      kin = kin[:, :1, :]
+    elif kin_form == "shared_2d":
+      kin = kin[:, 0, :]
+    ctx.cls("pwl_fn:kin_form=" + kin_form)
     kout = (rng.normal(size=(B, units, out_size)) * 2).astype(np.float32)
     x = rng.uniform(-0.2, 1.2, size=(B, units)).astype(np.float32)
     if miv is not None:
@@ -392,7 +400,7 @@ def _run_layer(ctx, case, st):
 
     def call(params, xx):
       return cpc.pwl_calibration_fn(tf.constant(xx), tf.constant(params[0][0]), tf.constant(params[1][0]), **kwp).numpy()
-    _unit_isolation(ctx, "pwl_calibration_fn", call, [(kin, 1), (kout, 1)], x, units)
+    _unit_isolation(ctx, "pwl_calibration_fn", call, [(kin, 1 if kin_form == "per_unit" else None), (kout, 1)], x, units)
   elif kind == "cdf_fn":
     ccdf = st["ccdf"]
     D, nkp = int(rng.choice([1, 2, 3])), int(rng.choice([1, 3]))
